@@ -407,6 +407,283 @@ class Rewriter:
         return out
 
 
+
+# --------------------------------------------------------------------------
+# match-arm rules (R14 or-pattern expansion under a guard, R15 reference patterns), closure specs (S5)
+
+
+def _split_top(toks, s, e, sep):
+    """split toks[s:e] at depth-0 occurrences of the punctuation `sep`; returns list of (s, e) ranges"""
+    parts, depth, cur = [], 0, s
+    for i in range(s, e):
+        t = toks[i]
+        if t.kind == L.PUNCT and t.text in ("(", "[", "{"):
+            depth += 1
+        elif t.kind == L.PUNCT and t.text in (")", "]", "}"):
+            depth -= 1
+        elif depth == 0 and t.kind == L.PUNCT and t.text == sep:
+            parts.append((cur, i))
+            cur = i + 1
+    parts.append((cur, e))
+    return parts
+
+
+def find_matches(toks):
+    """(match kw idx, scrutinee start, `{` idx, `}` idx) of every `match` expression, in source order"""
+    res = []
+    n = len(toks)
+    for i, t in enumerate(toks):
+        if t.kind == L.IDENT and t.text == "match":
+            p = i - 1
+            while p >= 0 and L.is_trivia(toks[p]):
+                p -= 1
+            if p >= 0 and toks[p].text == ".":
+                continue
+            k = i + 1
+            while k < n:
+                if toks[k].kind == L.PUNCT and toks[k].text in ("(", "["):
+                    k = L.match_close(toks, k)
+                elif toks[k].kind == L.PUNCT and toks[k].text == "{":
+                    break
+                k += 1
+            if k < n:
+                res.append((i, L.skip_trivia(toks, i + 1, n), k, L.match_close(toks, k)))
+    return res
+
+
+def parse_arms(toks, o, c):
+    """arms of the match block toks[o] == `{` .. toks[c] == `}`: dicts pat=(s,e) guard=(s,e)|None body=(s,e) end"""
+    arms = []
+    i = L.skip_trivia(toks, o + 1, c)
+    while i < c:
+        s = i
+        depth = 0
+        guard_kw = None
+        k = i
+        while k < c:
+            t = toks[k]
+            if t.kind == L.PUNCT and t.text in ("(", "[", "{"):
+                k = L.match_close(toks, k)
+            elif t.kind == L.IDENT and t.text == "if" and guard_kw is None:
+                guard_kw = k
+            elif t.kind == L.PUNCT and t.text == "=>":
+                break
+            k += 1
+        if k >= c:
+            raise Unsupported("match arm without `=>`")
+        arrow = k
+        pe = guard_kw if guard_kw is not None else arrow
+        while pe > s and L.is_trivia(toks[pe - 1]):
+            pe -= 1
+        guard = None
+        if guard_kw is not None:
+            ge = arrow
+            while ge > guard_kw and L.is_trivia(toks[ge - 1]):
+                ge -= 1
+            guard = (L.skip_trivia(toks, guard_kw + 1, arrow), ge)
+        b = L.skip_trivia(toks, arrow + 1, c)
+        if toks[b].kind == L.PUNCT and toks[b].text == "{":
+            be = L.match_close(toks, b) + 1
+            nx = L.skip_trivia(toks, be, c)
+            end = nx + 1 if nx < c and toks[nx].text == "," else be
+        else:
+            k = b
+            while k < c:
+                t = toks[k]
+                if t.kind == L.PUNCT and t.text in ("(", "[", "{"):
+                    k = L.match_close(toks, k)
+                elif t.kind == L.PUNCT and t.text == ",":
+                    break
+                k += 1
+            be = k
+            while be > b and L.is_trivia(toks[be - 1]):
+                be -= 1
+            end = k + 1 if k < c else c
+        arms.append(dict(pat=(s, pe), guard=guard, body=(b, be), end=end, start=s))
+        i = L.skip_trivia(toks, end, c)
+    return arms
+
+
+def pattern_alternatives(toks, s, e):
+    """alternatives denoted by the pattern toks[s:e]: a top-level `A | B`, or a tuple whose components are such
+    alternations (cartesian product, leftmost component varying slowest = the order Rust tries them in)."""
+    def txt(a, b):
+        return text_of(toks[a:b]).strip()
+    tops = _split_top(toks, s, e, "|")
+    if len(tops) > 1:
+        out = []
+        for a, b in tops:
+            a2 = L.skip_trivia(toks, a, b)
+            out.extend(pattern_alternatives(toks, a2, b))
+        return out
+    a = L.skip_trivia(toks, s, e)
+    b = e
+    while b > a and L.is_trivia(toks[b - 1]):
+        b -= 1
+    if a < b and toks[a].text == "(" and L.match_close(toks, a) == b - 1:
+        comps = [cp for cp in _split_top(toks, a + 1, b - 1, ",") if txt(*cp)]
+        alts = [pattern_alternatives(toks, x, y) for x, y in comps]
+        res = [""]
+        for al in alts:
+            res = [r + (", " if r else "") + x for r in res for x in al]
+        return ["(" + r + ")" for r in res]
+    return [txt(a, b)]
+
+
+def has_top_or(toks, s, e):
+    if len(_split_top(toks, s, e, "|")) > 1:
+        return True
+    a = L.skip_trivia(toks, s, e)
+    b = e
+    while b > a and L.is_trivia(toks[b - 1]):
+        b -= 1
+    if a < b and toks[a].text == "(" and L.match_close(toks, a) == b - 1:
+        return any(has_top_or(toks, x, y) for x, y in _split_top(toks, a + 1, b - 1, ","))
+    return False
+
+
+def r14_or_guard(toks, log):
+    """R14: a match arm `P1 | P2 if G => E` (alternation at top level or inside a tuple pattern) -> one arm per
+    alternative, each with the same guard and body, in the order Rust tries the alternatives (Verus does not accept an
+    or-pattern together with a guard; Rust defines the arm as exactly this sequence of attempts)."""
+    changed = True
+    while changed:
+        changed = False
+        for kw, ss, o, c in find_matches(toks):
+            for arm in parse_arms(toks, o, c):
+                if arm["guard"] is not None and has_top_or(toks, *arm["pat"]):
+                    alts = pattern_alternatives(toks, *arm["pat"])
+                    g = text_of(toks[arm["guard"][0]:arm["guard"][1]])
+                    b = text_of(toks[arm["body"][0]:arm["body"][1]])
+                    line = toks[arm["start"]].line
+                    new = []
+                    for al in alts:
+                        new.extend(L.lex("%s if %s => %s,\n            " % (al, g, b)))
+                    for t_ in new:
+                        t_.line = line
+                    toks = toks[:arm["start"]] + new + toks[arm["end"]:]
+                    log["rules"]["R14"] = log["rules"].get("R14", 0) + 1
+                    changed = True
+                    break
+            if changed:
+                break
+    return toks
+
+
+def r15_ref_patterns(toks, log):
+    """R15: `match (a, b) { (&P, &Q) => .. }` on a tuple of references to Copy values -> `match (*a, *b) { (P, Q) => .. }`
+    (Verus has no reference patterns; for Copy pointees the bindings denote the same values, by value instead of by
+    reference).  Applies only when some arm pattern of the match starts a component with `&`."""
+    for kw, ss, o, c in find_matches(toks):
+        arms = parse_arms(toks, o, c)
+        amp = [i for arm in arms for i in range(arm["pat"][0], arm["pat"][1]) if toks[i].kind == L.PUNCT and toks[i].text == "&"]
+        if not amp:
+            continue
+        # scrutinee must be a tuple of plain identifiers
+        se = o
+        while se > ss and L.is_trivia(toks[se - 1]):
+            se -= 1
+        if not (toks[ss].text == "(" and L.match_close(toks, ss) == se - 1):
+            raise Unsupported("reference patterns on a scrutinee that is not a tuple")
+        comps = _split_top(toks, ss + 1, se - 1, ",")
+        names = []
+        for a, b in comps:
+            ct = [t for t in toks[a:b] if not L.is_trivia(t)]
+            if len(ct) != 1 or ct[0].kind != L.IDENT:
+                raise Unsupported("reference patterns on a scrutinee component that is not an identifier")
+            names.append(ct[0].text)
+        drop = set(amp)
+        new = []
+        for i, t in enumerate(toks):
+            if i in drop:
+                continue
+            if ss <= i < se:
+                if i == ss:
+                    new.extend(L.lex("(" + ", ".join("*" + nm for nm in names) + ")"))
+                continue
+            new.append(t)
+        log["rules"]["R15"] = log["rules"].get("R15", 0) + 1
+        return r15_ref_patterns(new, log)
+    return toks
+
+
+def s5_closure_specs(toks, specs, fn_name, log):
+    """S5: the n-th closure literal `|x| EXPR` passed as a call argument gets the parameter / result types the directive
+    names and ITS OWN BODY as postcondition: `|x: A| -> (r__: B) ensures r__ == EXPR { EXPR }`.  Nothing is assumed:
+    Verus checks the closure body against that postcondition like any other function."""
+    if not specs:
+        return toks
+    # closure literals: `|` directly after `(` or `,`
+    found = []
+    n = len(toks)
+    for i, t in enumerate(toks):
+        if t.kind == L.PUNCT and t.text == "|":
+            p = i - 1
+            while p >= 0 and L.is_trivia(toks[p]):
+                p -= 1
+            if p >= 0 and toks[p].text in ("(", ","):
+                j = i + 1
+                while j < n and not (toks[j].kind == L.PUNCT and toks[j].text == "|"):
+                    j += 1
+                # body: up to the `,` or `)` closing the argument
+                k = L.skip_trivia(toks, j + 1, n)
+                b0 = k
+                while k < n:
+                    tk = toks[k]
+                    if tk.kind == L.PUNCT and tk.text in ("(", "[", "{"):
+                        k = L.match_close(toks, k)
+                    elif tk.kind == L.PUNCT and tk.text in (",", ")"):
+                        break
+                    k += 1
+                found.append((i, j, b0, k))
+    out = list(toks)
+    for ordinal in sorted(specs, reverse=True):
+        if ordinal >= len(found):
+            raise Unsupported("lost anchor: fn %s has %d closure literals, spec names closure %d" % (fn_name, len(found), ordinal))
+        i, j, b0, k = found[ordinal]
+        params, ret = specs[ordinal]
+        body = text_of(out[b0:k]).strip()
+        names = [tt.text for tt in out[i + 1:j] if tt.kind == L.IDENT]
+        want = [q.split(":")[0].strip() for q in params.split(",")]
+        if names != want:
+            raise Unsupported("closure %d of fn %s binds %s, directive names %s" % (ordinal, fn_name, names, want))
+        # the postcondition is the body itself written with the spec names of the operators (Verus' spec mode has no
+        # operator overloading for user types): `a OP b` -> a.OP_spec(b), `-a` -> a.neg_spec(); other shapes are not handled
+        bt = [tt for tt in out[b0:k] if not L.is_trivia(tt)]
+        opn = {"+": "AddSpec::add_spec", "-": "SubSpec::sub_spec", "*": "MulSpec::mul_spec", "/": "DivSpec::div_spec"}
+        if len(bt) == 3 and bt[0].kind == L.IDENT and bt[2].kind == L.IDENT and bt[1].text in opn:
+            post = "vstd::std_specs::ops::%s(%s, %s)" % (opn[bt[1].text], bt[0].text, bt[2].text)
+        elif len(bt) == 2 and bt[0].text == "-" and bt[1].kind == L.IDENT:
+            post = "vstd::std_specs::ops::NegSpec::neg_spec(%s)" % bt[1].text
+        else:
+            raise Unsupported("closure %d of fn %s: body `%s` is not `a OP b` or `-a`" % (ordinal, fn_name, body))
+        new = "|%s| -> (r__: %s) ensures r__ == %s { %s }" % (params, ret, post, body)
+        out = out[:i] + [L.Tok(L.IDENT, new, out[i].line)] + out[k:]
+        log["rules"]["S5"] = log["rules"].get("S5", 0) + 1
+    return out
+
+
+def drop_mono_predicates(toks, fp):
+    """R1 (where clauses): predicates whose subject is the monomorphised parameter (`T: num_traits::Zero`) are dropped."""
+    parts = find_fn_parts(toks)
+    if parts["where"] is None or not fp:
+        return toks
+    w, b = parts["where"], parts["body_open"]
+    preds = [(x, y) for x, y in _split_top(toks, w + 1, b, ",") if text_of(toks[x:y]).strip()]
+    keep = []
+    dropped = 0
+    for x, y in preds:
+        ct = [t for t in toks[x:y] if not L.is_trivia(t)]
+        if len(ct) >= 2 and ct[0].kind == L.IDENT and ct[0].text == fp and ct[1].text == ":":
+            dropped += 1
+        else:
+            keep.append(text_of(toks[x:y]).strip())
+    if not dropped:
+        return toks
+    new_where = L.lex("\n    where " + ", ".join(keep) + "\n    ") if keep else [L.Tok(L.WS, " ", toks[w].line)]
+    return toks[:w] + new_where + toks[b:]
+
+
 # --------------------------------------------------------------------------
 
 
@@ -499,6 +776,11 @@ class Unit:
         return toks, None
 
     def open_impl(self, args):
+        mono = None
+        mm_ = re.search(r"\smono=(\w+)", args)
+        if mm_:
+            mono = mm_.group(1)
+            args = args[:mm_.start()] + args[mm_.end():]
         m = re.match(r"(\S+)\s+(.*?)(?:\s*=>\s*(.*))?$", args)
         rel, header, emitted = m.group(1), m.group(2).strip(), m.group(3)
         toks, items = self.load(rel)
@@ -517,6 +799,12 @@ class Unit:
                 mm = re.search(r"<\s*(\w+)\s*:\s*(?:num_traits::)?Float\s*>", want)
                 if mm:
                     self.cur_fp = mm.group(1)
+            if mono:
+                # explicit monomorphisation of a type parameter that is not bounded by Float (R1), e.g. `impl<T: PartialOrd + Copy> Interval<T>`
+                if not emitted:
+                    raise Unsupported("mono= needs an emitted header")
+                self.cur_fp = mono
+                self.log.setdefault("monomorphised", []).append({"repo_header": want, "param": mono, "as": "R"})
             rw = Rewriter(float_param=self.cur_fp)
             hdr_toks = rw.run(hdr_toks)
             self.bump_rules(rw.counts)
@@ -577,6 +865,7 @@ class Unit:
             if free:
                 toks, fp = self.mono_header(toks)
             toks, iter_params = self.drop_iter_generics(toks)
+            toks = drop_mono_predicates(toks, fp)
             rw = Rewriter(float_param=fp, iter_params=iter_params, consts=getattr(self, "consts", ()))
             toks = rw.run(toks)
             self.bump_rules(rw.counts)
@@ -584,6 +873,9 @@ class Unit:
         toks = self.r11_lazy_static(toks)
         toks = self.r12_unshadow(toks)
         toks = self.r13_and_then(toks)
+        toks = r15_ref_patterns(toks, self.log)
+        toks = r14_or_guard(toks, self.log)
+        toks = s5_closure_specs(toks, spec.get("closures", {}), spec["name"], self.log)
         for old, new in spec.get("subst", []):
             # S4: explicit, logged substitution of one expression (for constructs neither Verus nor the rules can express)
             otoks = [t.text for t in L.lex(old) if not L.is_trivia(t)]
@@ -941,6 +1233,11 @@ class Unit:
                         if not ms:
                             raise Unsupported("bad //@subst directive: " + nx)
                         spec.setdefault("subst", []).append((ms.group(1), ms.group(2)))
+                    elif nx.startswith("//@closure "):
+                        mc = re.match(r"//@closure\s+(\d+)\|\s*\((.*)\)\s*->\s*(.*)$", nx)
+                        if not mc:
+                            raise Unsupported("bad //@closure directive: " + nx)
+                        spec.setdefault("closures", {})[int(mc.group(1))] = (mc.group(2).strip(), mc.group(3).strip())
                     elif nx.startswith("//@at "):
                         ma = re.match(r'//@at\s+"(.*?)"\s*\|(.*)$', nx)
                         if not ma:
